@@ -413,15 +413,15 @@ Lemma stage_spec k reuse hu : forall more r n, stage_post n (stage k reuse hu r 
 Proof.
   induction more as [|r' more IH]; intros r n.
   - destruct k; simpl.
-    + destruct (ri_escape r); [|fin|fin].
+    + destruct (ri_escape r); [|destruct reuse; fin|destruct reuse; fin].
       grab r. destruct (s_conv st) eqn:E; [destruct (ri_rerun r)|]; destruct reuse; fin.
-    + destruct hu; [fin|]. destruct (ri_escape r); [|fin|fin].
+    + destruct hu; [fin|]. destruct (ri_escape r); [|destruct reuse; fin|destruct reuse; fin].
       grab r. destruct (s_conv st) eqn:E; [destruct (ri_rerun r)|]; fin.
-    + destruct (ri_escape r); [|fin|fin].
+    + destruct (ri_escape r); [|destruct reuse; fin|destruct reuse; fin].
       grab r. destruct (s_conv st) eqn:E; destruct reuse; fin.
   - destruct k; simpl.
     + (* hydraulics *)
-      destruct (ri_escape r); [|fin|fin].
+      destruct (ri_escape r); [|destruct reuse; fin|destruct reuse; fin].
       grab r. destruct (s_conv st) eqn:E; [|destruct reuse; fin].
       destruct (ri_rerun r); [|destruct reuse; fin].
       match goal with |- context [stage KHyd reuse hu r' more ?n3] =>
@@ -433,7 +433,7 @@ Proof.
       * destruct reuse; fin; try (apply Forall_app; split; auto); apply NC; discriminate.
       * destruct reuse; fin; try (apply Forall_app; split; auto); apply NC; discriminate.
     + (* heat *)
-      destruct hu; [fin|]. destruct (ri_escape r); [|fin|fin].
+      destruct hu; [fin|]. destruct (ri_escape r); [|destruct reuse; fin|destruct reuse; fin].
       grab r. destruct (s_conv st) eqn:E; [|fin].
       destruct (ri_rerun r); [|fin].
       match goal with |- context [stage KHeat reuse false r' more ?n3] =>
@@ -444,7 +444,7 @@ Proof.
           try (apply Forall_app; split; auto); try (destruct sts; simpl in *; congruence).
       * fin; try (apply Forall_app; split; auto); apply NC; discriminate.
       * fin; try (apply Forall_app; split; auto); apply NC; discriminate.
-    + destruct (ri_escape r); [|fin|fin].
+    + destruct (ri_escape r); [|destruct reuse; fin|destruct reuse; fin].
       grab r. destruct (s_conv st) eqn:E; destruct reuse; fin.
 Qed.
 
@@ -516,19 +516,19 @@ Proof.
   - simpl. repeat split; intros; try discriminate; try congruence; auto.
 Qed.
 
-(* _internal_data does not survive a stage that ends by itself unless reuse_internal_data is set *)
+(* _internal_data does not survive a hydraulic / bidirectional stage - however it ends, exceptions
+   escaping from the Newton loop included - unless reuse_internal_data is set *)
 Lemma stage_idata k hu : forall more r n, k <> KHeat ->
-  ri_escape r = NoEscape -> Forall (fun x => ri_escape x = NoEscape) more ->
   n_idata (fst (fst (stage k false hu r more n))) = false.
 Proof.
-  induction more as [|r' more IH]; intros r n Hk He Hm.
-  - destruct k; try congruence; simpl; rewrite He.
+  induction more as [|r' more IH]; intros r n Hk.
+  - destruct k; try congruence; simpl; destruct (ri_escape r); try reflexivity.
     + destruct (s_conv _); [destruct (ri_rerun r)|]; reflexivity.
     + destruct (s_conv _); reflexivity.
-  - inversion Hm; subst. destruct k; try congruence; simpl; rewrite He.
+  - destruct k; try congruence; simpl; destruct (ri_escape r); try reflexivity.
     + destruct (s_conv _); [|reflexivity]. destruct (ri_rerun r); [|reflexivity].
       match goal with |- context [stage KHyd false hu r' more ?n3] =>
-        pose proof (IH r' n3 Hk H1 H2) as P; destruct (stage KHyd false hu r' more n3) as [[n4 o] sts] end.
+        pose proof (IH r' n3 Hk) as P; destruct (stage KHyd false hu r' more n3) as [[n4 o] sts] end.
       simpl in P. destruct o; simpl; auto.
     + destruct (s_conv _); reflexivity.
 Qed.
